@@ -379,16 +379,25 @@ impl World {
 				}
 				start = fork_h;
 			}
-			for h in (start + 1)..=tip {
+			// A `chain::Confirm` client that announces the best block before the block's transactions
+			// may have been persisted between the two calls: as such a client does after a restart
+			// (it re-checks everything it watches, whatever the height), the transactions of the
+			// last blocks up to the monitor's best block are offered again; the library skips what it
+			// has seen.
+			let first = start.saturating_sub(5).max(1);
+			for h in first..=tip {
 				let b = self.chain.block_at(h).clone();
 				let txdata: Vec<(usize, &Transaction)> =
 					b.txs.iter().enumerate().map(|(i, t)| (i + 1, t)).collect();
+				let replayed = h <= start;
 				let r = catch(|| {
 					let mut outs = Vec::new();
 					if !txdata.is_empty() {
 						outs.extend(m.transactions_confirmed(&b.header, &txdata, h, &bcast, &fee, &logger));
 					}
-					outs.extend(m.best_block_updated(&b.header, h, &bcast, &fee, &logger));
+					if !replayed {
+						outs.extend(m.best_block_updated(&b.header, h, &bcast, &fee, &logger));
+					}
 					outs
 				});
 				match r {
@@ -439,15 +448,19 @@ impl World {
 			}
 			start = fork_h;
 		}
-		for h in (start + 1)..=tip {
+		let first = start.saturating_sub(5).max(1);
+		for h in first..=tip {
 			let b = self.chain.block_at(h).clone();
 			let txdata: Vec<(usize, &Transaction)> =
 				b.txs.iter().enumerate().map(|(i, t)| (i + 1, t)).collect();
+			let replayed = h <= start;
 			let r = catch(|| {
 				if !txdata.is_empty() {
 					mgr.transactions_confirmed(&b.header, &txdata, h);
 				}
-				mgr.best_block_updated(&b.header, h);
+				if !replayed {
+					mgr.best_block_updated(&b.header, h);
+				}
 			});
 			if let Err((msg, l)) = r {
 				self.library_panic("Restart manager sync", msg, l);
